@@ -178,16 +178,49 @@ IO_CONFIGS = {"quick": [(True, 65536), (False, 65536), (False, 7)],
               "thorough": [(True, 65536), (False, 65536), (False, 7), (True, 1024), (False, 1), (True, 1 << 20)]}
 
 
-def stalled_reader_scan(driver, sizes):
-    """splice mode: a client that does not read while the origin sends S bytes and closes; afterwards the
-    client must receive exactly S bytes (a partial splice into the full socket must not be dropped)"""
+def pattern(S):
+    """S bytes whose content depends on the position (a lost or repeated stretch changes the digest)"""
+    blk = b"".join(b"%07x\n" % i for i in range(0, 1 << 13))
+    return (blk * (S // len(blk) + 1))[:S]
+
+
+def stalled_reader_scan(driver, sizes, splice=True, upload=False):
+    """a receiver that does not read for a second while the sender writes S bytes and closes; afterwards the receiver
+    must get exactly those S bytes (whatever a full socket did not take at once - a partial splice, a partial write -
+    must not be dropped).  upload=False: the origin sends, the client stalls; upload=True: the client sends, the
+    origin stalls."""
+    import hashlib
     lp = e2e.free_port()
     p = e2e.Proxy(driver, [{"name": "http", "bind": "%s:%d" % (LOOP, lp)}], [{"name": "direct"}], [{"target": "direct"}],
-                  io={"useSplice": True, "bufferSize": 65536}, metrics=False, name="stall")
+                  io={"useSplice": splice, "bufferSize": 65536}, metrics=False, name="stall")
+
+    def drain(c, first_wait):
+        time.sleep(first_wait)
+        got, how, h = 0, "eof", hashlib.md5()
+        c.settimeout(5.0)
+        try:
+            while True:
+                d = c.recv(1 << 16)
+                if not d:
+                    break
+                got += len(d)
+                h.update(d)
+        except socket.timeout:
+            how = "timeout"
+        except OSError:
+            how = "reset"
+        return got, how, h.hexdigest()
 
     def one(S):
+        data = pattern(S)
+        want = hashlib.md5(data).hexdigest()
+        out = {}
+
         def oh(c, a, rec):
-            c.sendall(b"z" * S)
+            if upload:
+                out["r"] = drain(c, 1.0)
+                return
+            c.sendall(data)
             c.shutdown(socket.SHUT_WR)
             c.settimeout(20)
             try:
@@ -196,27 +229,31 @@ def stalled_reader_scan(driver, sizes):
             except OSError:
                 pass
         org = e2e.Server(oh)
+        org.sock.setsockopt(socket.SOL_SOCKET, socket.SO_RCVBUF, 8192)      # inherited by the accepted connection
         try:
             c = socket.socket()
             c.setsockopt(socket.SOL_SOCKET, socket.SO_RCVBUF, 8192)
             c.connect((LOOP, lp))
             c.sendall(b"CONNECT %s:%d HTTP/1.1\r\n\r\n" % (LOOP.encode(), org.port))
             head = e2e.recv_exact(c, 39)
-            time.sleep(1.0)
-            got, how = 0, "eof"
-            c.settimeout(3.0)
-            try:
-                while True:
-                    d = c.recv(1 << 16)
-                    if not d:
-                        break
-                    got += len(d)
-            except socket.timeout:
-                how = "timeout"
+            if upload:
+                c.settimeout(30)
+                try:
+                    c.sendall(data)
+                    c.shutdown(socket.SHUT_WR)
+                except OSError:
+                    pass
+                drain(c, 0)                      # the origin closes once it has seen the end of the stream
+                t_end = time.time() + 10
+                while "r" not in out and time.time() < t_end:
+                    time.sleep(0.05)
+                got, how, dig = out.get("r", (0, "origin never finished", ""))
+            else:
+                got, how, dig = drain(c, 1.0)
             c.close()
         finally:
             org.close()
-        return S, got, how
+        return S, got, how, dig == want
     with p:
         with concurrent.futures.ThreadPoolExecutor(16) as ex:
             return list(ex.map(one, sizes))
@@ -294,22 +331,26 @@ def run(tier, seed, replay=None):
                              {"kind": "failing-input", "io": io, "scenarios": scs[:20]})
         if replay:
             break
-    # splice: stalled reader
+    # a receiver that stalls: partial splices / partial writes into a full socket, both I/O modes, both directions
     if not replay:
         rr = rng(seed, "C01-stall")
-        n_scan = 48 if tier == "quick" else 320
-        sizes = sorted(rr.sample(range(3_000_000, 6_200_000, 8192), n_scan))
-        res = stalled_reader_scan(driver, sizes)
-        for S, got, how in res:
-            total += 1
-            if got != S:
-                rep.fail("C01: splice mode, stalled client: origin sent %d bytes and closed, the client then received %d" % (S, got),
-                         {"kind": "failing-input", "io": [True, 65536], "stalled_reader_size": S, "received": got})
-        dist["stalled-reader"] = len(res)
+        n_scan = 16 if tier == "quick" else 96
+        for splice in (True, False):
+            for upload in (False, True):
+                sizes = sorted(rr.sample(range(3_000_000, 6_200_000, 8192), n_scan))
+                res = stalled_reader_scan(driver, sizes, splice, upload)
+                for S, got, how, same in res:
+                    total += 1
+                    if got != S or not same:
+                        rep.fail("C01: %s mode, stalled %s: the %s sent %d bytes and closed, the other side then received %d (%s)%s" % (
+                                 "splice" if splice else "buffered", "origin" if upload else "client", "client" if upload else "origin", S, got, how,
+                                 "" if got != S else " with different content"),
+                                 {"kind": "failing-input", "io": [splice, 65536], "stalled_reader_size": S, "upload": upload, "received": got})
+                dist["stalled-%s-%s" % ("origin" if upload else "client", "splice" if splice else "buffered")] = len(res)
     rep.coverage.update({
         "evaluations": total,
         "distinct_nontrivial": len(shapes),
-        "rule": "client kinds %s x connectors %s x origin behaviours %s x I/O configurations %s; sizes 0..%s, segmentations incl. 1-byte and 70000-byte writes, early data glued to the handshake, 16 tunnels in flight at a time with connection-tagged content; stalled-reader scan in splice mode" % (
+        "rule": "client kinds %s x connectors %s x origin behaviours %s x I/O configurations %s; sizes 0..%s, segmentations incl. 1-byte and 70000-byte writes, early data glued to the handshake, 16 tunnels in flight at a time with connection-tagged content; stalled-receiver scan (client or origin not reading for 1 s while 3-6 MB arrive) in splice and buffered mode, content compared by digest" % (
             rw.CLIENTS, rw.CONNECTORS, rw.BEHAVIOURS, IO_CONFIGS[tier], "1.5 MB" if tier == "quick" else "6 MB"),
         "input_distribution": dict(dist),
         "not_established": {"%s->%s" % k: v for k, v in not_established.items()},
